@@ -78,8 +78,8 @@ theorem c01_pae_first (env : TEnv) (hwf : WF env = true) (h : Heap)
 theorem c01_prefix_only (env : TEnv) (hwf : WF env = true) (h : Heap)
     (steps : List (String × Val)) (hs : wfSteps steps = true) (target : Val) :
     let out := tEval env h (Val.sent "T" :: flatOfSteps steps) target
-    (∀ k e, out.res = .error (.pae k e) → out.touched = List.range (k + 1)) ∧
-    (∀ v, out.res = .ok v → out.touched = List.range steps.length) := by
+    (∀ k e, out.res = .error (.pae k e) → out.touched.map (·.1) = List.range (k + 1)) ∧
+    (∀ v, out.res = .ok v → out.touched.map (·.1) = List.range steps.length) := by
   simp only
   rw [c01_refines_walk env hwf h steps hs]
   constructor
@@ -138,14 +138,14 @@ theorem c01_model_checks (env : TEnv) (hwf : WF env = true) (h : Heap)
     (steps : List (String × Val)) (hs : wfSteps steps = true) (target : Val)
     (hsup : walk env h steps 0 target ≠ .unsupported) :
     let out := tEval env h (Val.sent "T" :: flatOfSteps steps) target
-    checkC01 env h steps target (observe env out) (some out.touched) = true := by
+    checkC01 env h steps target (observe env out) (some (touchedAddrs out.touched)) = true := by
   simp only
   rw [c01_refines_walk env hwf h steps hs]
   obtain ⟨_, _, _, hflags⟩ := WF_parts hwf
   unfold checkC01
   cases hw : walk env h steps 0 target with
-  | ok v => simp [outOfWalk, observe]
-  | fail k e => simp [outOfWalk, observe, hflags]
+  | ok v => simp [outOfWalk, observe, isSubseq_refl]
+  | fail k e => simp [outOfWalk, observe, hflags, isSubseq_refl]
   | unsupported => exact absurd hw hsup
 
 /-! ### non-vacuity: concrete inputs meet every hypothesis -/
